@@ -3,6 +3,8 @@ completeness of the transferred state, decided statically).
 
 A1-DEEP     in copy() every attribute dict / network-attribute dict of the source that flows into the new network
             is wrapped in deepcopy (nested values must not be shared).
+A1-STRUCT   where copy() fills the copy's member tables directly, the stored value is fresh down to the member sets
+            (a DiHypergraph entry is a dict of two sets: `.copy()` of it still shares both sets).
 A1-SHALLOW  in the network-to-network branches of to_hypergraph / to_dihypergraph / to_simplicial_complex the network
             attributes are copied and attribute dicts reach the new network only through deepcopy or through a bulk
             mutator (which copies the entries).
@@ -32,7 +34,7 @@ BULK = {"add_nodes_from", "add_edges_from", "add_simplices_from"}
 def run(ctx):
     repo = ctx.repo
     res = Result(PROP)
-    res.rules = ["A1-DEEP", "A1-SHALLOW", "A1-MUT", "A2", "A3", "U-OWN", "U-COPY"]
+    res.rules = ["A1-DEEP", "A1-STRUCT", "A1-SHALLOW", "A1-MUT", "A2", "A3", "U-OWN", "U-COPY"]
     res.explanation = (
         "Escape rules at every network-to-network transfer site (3 copy methods, the isinstance(data, <network class>) "
         "branches of the converters the constructors delegate to) and on every table store of the three classes: source "
@@ -128,6 +130,67 @@ def transfer_sites(fn_node, new):
     return calls, assigns
 
 
+def direct_fills(fn_node, new, src):
+    """(stmt, table, key expr, value expr, enclosing For) for `new.<table>[key] = value`."""
+    out = []
+
+    def rec(stmts, loop):
+        for st in stmts:
+            if isinstance(st, (ast.FunctionDef, ast.AsyncFunctionDef, ast.ClassDef)):
+                continue
+            if isinstance(st, ast.Assign):
+                for t in st.targets:
+                    if isinstance(t, ast.Subscript) and isinstance(t.value, ast.Attribute) and t.value.attr in TABLES and isinstance(t.value.value, ast.Name) and t.value.value.id == new:
+                        out.append((st, t.value.attr, t.slice, st.value, loop))
+            inner = st if isinstance(st, ast.For) else loop
+            for field in ("body", "orelse", "finalbody"):
+                sub = getattr(st, field, None)
+                if isinstance(sub, list):
+                    rec(sub, inner if field == "body" else loop)
+            for h in getattr(st, "handlers", []) or []:
+                rec(h.body, loop)
+
+    rec(fn_node.body, None)
+    return out
+
+
+def _is_factory(v):
+    return isinstance(v, ast.Call) and isinstance(v.func, ast.Attribute) and v.func.attr.endswith("_factory")
+
+
+def fresh_depth(v, fn_node, depth=0):
+    """How many container levels of the value are newly built here: 0 = the source's own object, 1 = a new outer container
+    (set(x), x.copy(), {..: x[..]}), 2 = new outer and new inner containers, 9 = deepcopy / no source object inside."""
+    if depth > 4:
+        return 0
+    if isinstance(v, ast.Call):
+        name = getattr(v.func, "id", getattr(v.func, "attr", None))
+        if name == "deepcopy":
+            return 9
+        if name in ("set", "frozenset", "list", "tuple", "dict") and isinstance(v.func, ast.Name):
+            return 9 if not v.args else 1
+        if name == "copy" and isinstance(v.func, ast.Attribute) and not v.args:
+            return 1
+        if name == "copy" and isinstance(v.func, ast.Name) and v.args:
+            return 1
+        return 0
+    if isinstance(v, ast.Dict):
+        if not v.values:
+            return 9
+        return 1 + min(fresh_depth(x, fn_node, depth + 1) for x in v.values)
+    if isinstance(v, ast.DictComp):
+        return 1 + fresh_depth(v.value, fn_node, depth + 1)
+    if isinstance(v, (ast.Set, ast.List, ast.Tuple)):
+        return 9 if not v.elts else 1
+    if isinstance(v, (ast.SetComp, ast.ListComp)):
+        return 1
+    if isinstance(v, ast.Name):
+        defs = [st.value for st in own_statements(fn_node) if isinstance(st, ast.Assign) and any(isinstance(t, ast.Name) and t.id == v.id for t in st.targets)]
+        if defs:
+            return min(fresh_depth(d, fn_node, depth + 1) for d in defs)
+    return 0
+
+
 def check_copy(res, cp, cname):
     src = cp.params[0]
     new = None
@@ -159,10 +222,37 @@ def check_copy(res, cp, cname):
             res.inst("A1-DEEP", f"{cp.qualname}:{st.lineno} `{unparse(node, 30)}` -> {new}.{attr}", ok)
             if not ok:
                 res.add(mk_finding(PROP, "A1-DEEP", cp, st, f"{cp.qualname}: `{unparse(node, 40)}` is assigned to the copy's {attr} without deepcopy; the two networks would share it", role=f"{cname}:{attr}"))
+    # direct fills of the copy's tables (new._edge[idx] = ...): the stored value must be fresh down to the member sets
+    direct = direct_fills(cp.node, new, src)
+    depth_needed = 2 if cname == "DiHypergraph" else 1
+    filled = set()
+    for st, table, key, val, loop in direct:
+        n += 1
+        if table in ("_node_attr", "_edge_attr"):
+            ok = isinstance(val, ast.Call) and getattr(val.func, "id", getattr(val.func, "attr", None)) == "deepcopy" or _is_factory(val)
+            res.inst("A1-DEEP", f"{cp.qualname}:{st.lineno} `{unparse(val, 30)}` -> {new}.{table}[...]", ok)
+            if not ok:
+                res.add(mk_finding(PROP, "A1-DEEP", cp, st, f"{cp.qualname}: `{unparse(val, 40)}` is stored in the copy's {table} without deepcopy; nested attribute values would be shared between the two networks", role=f"{cname}:{table}"))
+        else:
+            d = fresh_depth(val, cp.node)
+            ok = d >= depth_needed
+            res.inst("A1-STRUCT", f"{cp.qualname}:{st.lineno} `{unparse(val, 30)}` -> {new}.{table}[...] is fresh to depth {d} (needed {depth_needed})", ok)
+            if not ok:
+                what = "the tail and head sets inside it are still the source's own sets" if depth_needed == 2 and d == 1 else "the stored object is the source's own"
+                res.add(mk_finding(PROP, "A1-STRUCT", cp, st, f"{cp.qualname}: `{unparse(val, 40)}` stored in the copy's {table} is not copied deeply enough ({what}); adding or removing a member in one network changes the other", role=f"{cname}:{table}"))
+        if loop is not None and isinstance(loop.iter, ast.Call) and isinstance(loop.iter.func, ast.Attribute) and loop.iter.func.attr == "items" and isinstance(loop.iter.func.value, ast.Attribute) and loop.iter.func.value.attr == table and isinstance(loop.iter.func.value.value, ast.Name) and loop.iter.func.value.value.id == src:
+            if isinstance(loop.target, ast.Tuple) and isinstance(loop.target.elts[0], ast.Name) and isinstance(key, ast.Name) and key.id == loop.target.elts[0].id:
+                filled.add(table)
+    if "_edge" in filled:
+        # the node side must be mirrored in the same function
+        mirrored = any(isinstance(c, ast.Call) and isinstance(c.func, ast.Attribute) and c.func.attr == "add" and f"{new}._node[" in unparse(c.func.value, 80) for c in ast.walk(cp.node))
+        res.inst("A3", f"{cp.qualname} (as {cname}) mirrors the directly filled edges in the copy's node table", mirrored)
+        if not mirrored:
+            res.add(mk_finding(PROP, "A3", cp, cp.node, f"{cp.qualname} fills the copy's _edge table directly but never records the memberships in its _node table", role=f"{cname}:mirror"))
     # A3: completeness
     called = {c.func.attr for _, c in calls}
     assigned = {a for _, a in assigns}
-    need = [("nodes", bool(called & {"add_nodes_from"})), ("edges", bool(called & {"add_edges_from", "add_simplices_from"})), ("_net_attr", "_net_attr" in assigned), ("_edge_uid", "_edge_uid" in assigned)]
+    need = [("nodes", bool(called & {"add_nodes_from"}) or "_node" in filled), ("edges", bool(called & {"add_edges_from", "add_simplices_from"}) or "_edge" in filled), ("_net_attr", "_net_attr" in assigned), ("_edge_uid", "_edge_uid" in assigned)]
     for what, ok in need:
         n += 1
         res.inst("A3", f"{cp.qualname} (as {cname}) transfers {what}", ok)
